@@ -79,6 +79,9 @@ pub enum BOp {
     BatchLazy(Vec<Payload>, u8),
     /// write_tlv(kind, value)
     WriteTlv(u8, Fill),
+    /// writer histories (C20) only: raw `io::Write::write_all` of these bytes (builds up
+    /// "whatever the writer already holds"; a no-op in builder histories)
+    RawWrite(Fill),
 }
 
 /// How a byte string of a given length is filled (keeps replay files small).
@@ -191,6 +194,10 @@ pub struct Scenario {
     /// builder history
     pub ctor: Option<Ctor>,
     pub ops: Vec<BOp>,
+    /// scenarios that are executed first, in this order, on the same thread (their verdicts are
+    /// not judged): the replay form of a violation that only manifests after other runs, i.e.
+    /// when the code under test carries hidden state from one call to the next
+    pub prelude: Vec<Scenario>,
 }
 
 impl Scenario {
@@ -208,6 +215,7 @@ impl Scenario {
             tags: Vec::new(),
             ctor: None,
             ops: Vec::new(),
+            prelude: Vec::new(),
         }
     }
     pub fn meta(&self, k: &str) -> Option<i64> {
@@ -270,6 +278,12 @@ impl Scenario {
                 Value::Array(self.ops.iter().map(bop_to_json).collect()),
             );
         }
+        if !self.prelude.is_empty() {
+            m.insert(
+                "prelude".into(),
+                Value::Array(self.prelude.iter().map(|p| p.to_json()).collect()),
+            );
+        }
         Value::Object(m)
     }
 
@@ -312,6 +326,11 @@ impl Scenario {
         if let Some(a) = o.get("ops").and_then(|x| x.as_array()) {
             for e in a {
                 sc.ops.push(bop_from_json(e)?);
+            }
+        }
+        if let Some(a) = o.get("prelude").and_then(|x| x.as_array()) {
+            for e in a {
+                sc.prelude.push(Scenario::from_json(e)?);
             }
         }
         Ok(sc)
@@ -476,6 +495,7 @@ fn bop_to_json(op: &BOp) -> Value {
             json!({"op":"write_payloads_lazy","style":style,"payloads":ps.iter().map(payload_to_json).collect::<Vec<_>>()})
         }
         BOp::WriteTlv(k, f) => json!({"op":"write_tlv","k":k,"fill":fill_to_json(f)}),
+        BOp::RawWrite(f) => json!({"op":"io_write_all","fill":fill_to_json(f)}),
     }
 }
 
@@ -511,6 +531,7 @@ fn bop_from_json(v: &Value) -> Result<BOp, String> {
             v.get("k").and_then(|x| x.as_u64()).ok_or("op.k")? as u8,
             fill_from_json(v.get("fill").ok_or("op.fill")?)?,
         ),
+        "io_write_all" => BOp::RawWrite(fill_from_json(v.get("fill").ok_or("op.fill")?)?),
         _ => return Err(format!("bad op {}", op)),
     })
 }
